@@ -275,3 +275,54 @@ def t_adjust_wiring(world):
 _t2 = tasks
 def tasks(tier):
     return _t2(tier) + [('adjust_wiring', t_adjust_wiring)]
+
+
+# ---------------------------------------------------------------- C20.b (reserve level): which reserve fields make up the venue's total liquidity, and that the conversions use exactly that total
+def t_reserve_totals(world):
+    obs = []
+    # Kamino: total = available + borrowed - protocol fees - accumulated referrer fees - PENDING referrer fees (each 68.60 field floored to 48 fractional bits)
+    eng = world.engine(primary='kamino', extra=('typecrate',))
+    f = world.fn(r'::calculate_total_supply_i80f48$', 'kamino')
+    a = eng.ex.fresh(f.params[0][1], 'rsv')
+    res = eng.run_fn(f, [a])
+    ob = Ob('C20.b.kamino-total-supply', 'Kamino reserve: total liquidity == available + borrowed - accumulated protocol fees - accumulated referrer fees - pending referrer fees, each read from ITS OWN field '
+            '(an omitted or double-counted fee term overstates the exchange rate)', [f.name], 'loop-free; magnitudes: every 68.60 field below 2^120, available u64 (no i128 wrap inside that domain)'); ob.paths = len(res)
+    R = STRUCTS['MinimalReserve']
+    fld = lambda n: z3.Int(f'rsv*.{R.index(n)}.le')
+    avail = fsym('rsv*', 'MinimalReserve', 'available_amount')
+    names = ('borrowed_amount_sf', 'accumulated_protocol_fees_sf', 'accumulated_referrer_fees_sf', 'pending_referrer_fees_sf')
+    dom = [z3.And(fld(n) >= 0, fld(n) < (1 << 120)) for n in names]
+    ref = avail * W + fld('borrowed_amount_sf') / 4096 - fld('accumulated_protocol_fees_sf') / 4096 - fld('accumulated_referrer_fees_sf') / 4096 - fld('pending_referrer_fees_sf') / 4096
+    for r in returned(res):
+        if ob.witness(eng, r, dom) is False: continue
+        ob.prove(eng, r, dom, r['ret'].e == ref, 'total == available + borrowed - the three fee accumulators (each from its own field)', role='total-supply-terms')
+    ob.need_witness(); obs.append(ob)
+    # ... and the public conversions are computed from exactly that total and the collateral mint supply
+    for fname in ('scaled_supplies', 'collateral_to_liquidity', 'liquidity_to_collateral'):
+        eng = world.engine(primary='kamino', extra=('typecrate',), opaque=[r'::calculate_total_supply_i80f48$', r'(^|::)scale_supplies$', r'_from_scaled$'])
+        f = world.fn(r'kamino-mocks/src/state\.rs[^>]*>::%s$' % fname, 'kamino', pred=lambda f_: 'MinimalReserve' in f_.params[0][1])
+        args = [eng.ex.fresh(f.params[0][1], 'rsv')] + [eng.ex.fresh(ty, 'x%d' % i) for i, (_, ty) in enumerate(f.params[1:])]
+        res = eng.run_fn(f, args)
+        ob = Ob('C20.b.kamino-' + fname, f'Kamino reserve {fname}: uses calculate_total_supply (once), the collateral mint supply and the mint decimals of THIS reserve; conversion errors propagated', [f.name],
+                'loop-free; callees opaque (decided in C20.a / C20.b.kamino-total-supply)'); ob.paths = len(res)
+        for r, okc in ok_paths(res):
+            if ob.witness(eng, r, [okc]) is False: continue
+            Ev = [e for e in flat_events(r['events']) if e[0] == 'call']
+            ts = [e for e in Ev if re.search(r'::calculate_total_supply_i80f48$', e[1])]; ss = [e for e in Ev if re.search(r'(^|::)scale_supplies$', e[1])]
+            if len(ts) != 1 or len(ss) != 1: ob.structural(f'{len(ts)} total-supply / {len(ss)} scale_supplies calls on an accepting path', 'wiring'); continue
+            ob.prove(eng, r, [okc], z3.And(ss[0][2][0].e == ts[0][3].e, ss[0][2][1].e == fsym('rsv*', 'MinimalReserve', 'mint_total_supply'), ss[0][2][2].e == fsym('rsv*', 'MinimalReserve', 'mint_decimals') % 256,
+                                           zint(ss[0][3].disc) == 1), 'scale_supplies(total supply, collateral mint supply, mint decimals as u8) and None propagated', role='scale-args')
+            cv = [e for e in Ev if re.search(r'_from_scaled$', e[1])]
+            if fname != 'scaled_supplies':
+                if len(cv) != 1 or (fname.split('_')[0] not in cv[0][1].split('::')[-1]): ob.structural(f'{fname}: wrong / missing conversion kernel {[e[1][-40:] for e in cv]}', 'conversion-kernel'); continue
+                tup = ss[0][3].payload[1][0]
+                ob.prove(eng, r, [okc], z3.And(cv[0][2][0].e == args[1].e, cv[0][2][1].e == ev(eng.get_path(tup, (('f', 0, I80),))), cv[0][2][2].e == ev(eng.get_path(tup, (('f', 1, I80),))),
+                                               zint(cv[0][3].disc) == 1, r['ret'].payload[0][0].e == cv[0][3].payload[1][0].e),
+                         'conversion kernel gets (amount, scaled total liquidity, scaled total collateral) in that order; its result is returned, None becomes an error', role='conversion-args')
+        ob.need_witness(); obs.append(ob)
+    return obs
+
+
+_t_rt = tasks
+def tasks(tier):
+    return _t_rt(tier) + [('reserve_totals', t_reserve_totals)]
